@@ -289,12 +289,12 @@ RAW_DESIGN_INVS = ["TypeOK", "RefEq", "MustOk", "Partition"]
 ALL_WK = ["append", "at0", "atend", "tw0", "tw1", "oob"]
 
 
-def raw_cfg(names, P, sizes, floor, initlen, maxfile, depth, ops, wkinds, pre, dev, invs, emit, histk=0):
+def raw_cfg(names, P, sizes, floor, initlen, maxfile, depth, ops, wkinds, pre, dev, invs, emit, histk=0, prewrite=False):
     st = lambda xs: "{" + ", ".join('"%s"' % x for x in xs) + "}"
     lines = ["SPECIFICATION Spec", "CONSTANTS", f"  Names = {st(names)}", f"  P = {P}",
              "  Sizes = {" + ", ".join(map(str, sizes)) + "}", f"  Floor = {floor}", f"  InitLen = {initlen}",
              f"  MaxFile = {maxfile}", f"  Depth = {depth}", f"  Dev = {st(sorted(dev))}", f"  Ops = {st(ops)}",
-             f"  WKinds = {st(wkinds)}", f"  HistK = {histk}", f"  PreN = {len(pre)}",
+             f"  WKinds = {st(wkinds)}", f"  HistK = {histk}", f"  PreN = {len(pre)}", f"  PreWrite = {'TRUE' if prewrite else 'FALSE'}",
              "VIEW HView", "CONSTRAINT DepthOK", "CHECK_DEADLOCK FALSE"]
     lines += [f"INVARIANT {i}" for i in invs]
     if emit:
@@ -491,6 +491,125 @@ def c14(prop, tier, seed):
             "violations": violations, "known": known_lines}
 
 
+# ----------------------------------------------------------------------------------------------
+# crash points x write-back subsets on the real code, behaviours and I/O order from spec/RawDb.tla (C05 C12)
+# ----------------------------------------------------------------------------------------------
+def crash_run(prop, tier, seed, plan, assumptions):
+    known_ids = vlib.all_known_devs()
+    raw_devs = sorted(known_ids & {"D1", "D15"})
+    states = trans = behaviours = images = points = events = nontrivial = iomis = regime2 = in_compact = 0
+    violations, known_seen, samples, runs = [], {}, [], []
+    for item in plan:
+        wd = vlib.scratch_dir("crash")
+        try:
+            P = 2
+            floor = (1 << 20) // (4096 // P)
+            base = (item["names"], P, item["sizes"], floor, 0, item["maxfile"], item["depth"], item["ops"], item.get("wkinds", ["append"]), item.get("pre", []))
+            d = vlib.run_tlc("MCRawDb", raw_cfg(*base, [], RAW_DESIGN_INVS, False, 0, item.get("prewrite", False)), os.path.join(wd, "design"), 8, 1500)
+            a = vlib.run_tlc("MCRawDb", raw_cfg(*base, raw_devs, ["TypeOK"], True, item.get("histk", 0), item.get("prewrite", False)), os.path.join(wd, "asis"), 8, 1500)
+            if d["violated"] or a["violated"]:
+                raise ToolError("RawDb model: %s %s %s" % (d["violated"], a["violated"], vlib.trace_ops(d["err_trace"])))
+            if not a["distinct"]:
+                raise ToolError("TLC explored nothing")
+            states += d["distinct"] + a["distinct"]; trans += d["generated"] + a["generated"]
+            paths = vlib.maximal_paths(a["emitted"]["REPLAY"])
+            # crash points are only counted after a completed flush: keep behaviours that contain one
+            paths = [p for p in paths if any(s["op"] in ("flush", "compact") for s in p[:-1])]
+            if not samples and paths:
+                p0 = max(paths, key=len)
+                samples.append({"ops": ["%s(%s)" % (s["op"], ",".join(map(str, s["args"]))) for s in p0], "io_of_last_op": p0[-1]["io"]})
+            nsh = max(1, min(14, len(paths) // 300))
+            files = []
+            for si in range(nsh):
+                sf = os.path.join(wd, f"p.{si}.ndjson")
+                vlib.write_ndjson(sf, paths[si::nsh])
+                files.append(sf)
+            with cf.ThreadPoolExecutor(14) as ex:
+                futs = {ex.submit(vlib.run_vh, ["crashreplay", "--in", sf, "--max-choices", str(item.get("choices", 12)), "--prop", prop]): si
+                        for si, sf in enumerate(files)}
+                for fu in cf.as_completed(futs):
+                    si = futs[fu]
+                    r = fu.result()
+                    behaviours += r["behaviours"]; images += r["images"]; points += r["crash_points"]; events += r["events"]
+                    nontrivial += r["distinct_nontrivial"]; iomis += r["io_kind_mismatch"]; regime2 += r["regime2_checked"]
+                    in_compact += r["crash_points_inside_compact"]
+                    for k in r["known"]:
+                        e = known_seen.setdefault(k["dev"], {"count": 0, "history": k["history"]})
+                        e["count"] += k["count"]
+                        if len(k["history"]) < len(e["history"]):
+                            e["history"] = k["history"]
+                    for v in r["violations"]:
+                        v.update({"property": prop, "tier": tier, "seed": seed, "spec": "RawDb-crash", "choices": item.get("choices", 12),
+                                  "steps_full": paths[si::nsh][v["behaviour"]]})
+                        violations.append(v)
+            runs.append({k: item[k] for k in ("names", "sizes", "depth", "ops")} | {"pre": item.get("pre", []), "prewrite": item.get("prewrite", False),
+                        "asis_states": a["distinct"], "design_states": d["distinct"], "behaviours_with_flush": len(paths)})
+        finally:
+            shutil.rmtree(wd, ignore_errors=True)
+    if iomis:
+        raise ToolError(f"{iomis} operations produced I/O events whose kinds/order differ from the model's (spec/RawDb.tla io lists): "
+                        "the specification no longer describes the code's I/O order")
+    known_lines = []
+    for dev, e in sorted(known_seen.items()):
+        if dev in known_ids:
+            known_lines.append("%s %s" % (dev, " ".join(e["history"])))
+        else:
+            violations.append({"property": prop, "kind": "unlisted-deviation", "dev": dev, "history": e["history"]})
+    cov = {"evaluations": images, "distinct_nontrivial": nontrivial, "samples": samples,
+           "rule": "behaviours (containing a completed flush) emitted by TLC from spec/RawDb.tla are executed with the I/O tap on; every event index after the "
+                   "first completed flush is a crash point; per crash point the write-back choices are: nothing, everything, each single dirty page alone, "
+                   "all but one, each older version of a page, all-metadata, all-data and (<= 6 dirty pages) every subset, capped per crash point with rotation; "
+                   "each image is materialised and opened with Database::open; non-trivial behaviour = contains a flush and >= 3 operations",
+           "states": states, "transitions": trans, "traces_validated_against_impl": behaviours, "crash_points": points, "io_events": events,
+           "io_order_mismatches_vs_model": iomis, "library_syncs_only_checks": regime2, "crash_points_inside_compact": in_compact,
+           "deviations_taken": {k: v["count"] for k, v in known_seen.items()}, "runs": runs, "exhaustive": False,
+           "checker_cmd": "tlc MCRawDb.tla ; vh crashreplay"}
+    return {"level": "fault_enumeration", "coverage": cov, "assumptions": assumptions, "violations": violations, "known": known_lines}
+
+
+CRASH_ASSUME = ["crash model of C05: 4 KiB page writes atomic, file-length changes durable in order, hole punches immediate; crash images are reconstructed "
+                "from the I/O tap (every mmap write with its bytes, set_len, sync, punch), not produced by power cuts",
+                "the I/O event kinds and order of every operation must equal the io list the TLA+ model predicts for it (otherwise tool error)",
+                "UntouchedIntact is checked for regions whose metadata was ever written (C01's persistence condition); the library-syncs-only clause is checked on "
+                "the images with no OS write-back"]
+
+
+@register("C05")
+def c05(prop, tier, seed):
+    plan = [
+        dict(names=["a", "b", "c", "d"], pre=["a", "b", "c"], prewrite=True, sizes=[3], maxfile=40, depth=q(tier, 4, 6),
+             ops=["create", "write", "remove", "flush", "compact"], choices=q(tier, 8, 40)),
+        dict(names=["a", "b"], sizes=[3, 5], maxfile=40, depth=q(tier, 6, 7), ops=["create", "write", "truncate", "rename", "remove", "flush", "rflush"],
+             wkinds=["append", "at0", "tw1"], choices=q(tier, 8, 40)),
+    ]
+    return crash_run(prop, tier, seed, plan, CRASH_ASSUME)
+
+
+@register("C12")
+def c12(prop, tier, seed):
+    # compaction: crash points inside and after compact() (reserved tails, promoted and pending holes), and through the C01 replay:
+    # readable bytes, lengths, placement and file length unchanged by compact
+    crash = crash_run(prop, tier, seed, [
+        dict(names=["a", "b", "c", "d"], pre=["a", "b", "c"], prewrite=True, sizes=[3], maxfile=40, depth=q(tier, 4, 5),
+             ops=["write", "remove", "compact", "create"], choices=q(tier, 8, 40)),
+    ], CRASH_ASSUME)
+    live = raw_run(prop, tier, seed, [
+        dict(names=["a", "b", "c"], pre=["a", "b", "c"], sizes=[1, 5], maxfile=40, depth=q(tier, 4, 6), ops=["write", "truncate", "remove", "flush", "compact", "create"],
+             wkinds=["append", "tw1"], histk=0, scales=[2048]),
+    ], "non-trivial = length >= 3 containing a relocation, an adjacent-hole growth or a reopen", RAW_ASSUME)
+    cov = crash["coverage"]
+    lc = live["coverage"]
+    cov["evaluations"] += lc["evaluations"]; cov["distinct_nontrivial"] += lc["distinct_nontrivial"]
+    cov["states"] += lc["states"]; cov["transitions"] += lc["transitions"]; cov["traces_validated_against_impl"] += lc["traces_validated_against_impl"]
+    cov["samples"] += lc["samples"]; cov["runs"] += lc["runs"]
+    cov["allocator_state_compared_around_compact"] = lc["allocator_state_compared"]
+    cov["rule"] += " || plus the C01-style replay (contents, allocator state and file length compared with the model after every step, compact in the alphabet)"
+    crash["violations"] += live["violations"]
+    crash["known"] += [k for k in live["known"] if k not in crash["known"]]
+    crash["assumptions"] += ["concurrent writers during compact() are not exercised by this check (see C10)"]
+    return crash
+
+
 def merge(results):
     out = results[0]
     for r in results[1:]:
@@ -542,6 +661,20 @@ def replay(prop, path):
             vlib.write_ndjson(nd, [v["steps_full"]])
             r = vlib.run_vh(["vecreplay", "--in", nd, "--format", v["format"], "--type", v["type"], "--k", str(v["K"]),
                              "--block", str(v["block"])])
+        finally:
+            shutil.rmtree(wd, ignore_errors=True)
+        if r["violations"]:
+            print(json.dumps(r["violations"][0], indent=1))
+            print(f"VIOLATION property={prop} replay={path}")
+            return 1
+        print("replay: no violation")
+        return 0
+    if v.get("spec") == "RawDb-crash" and v.get("steps_full"):
+        wd = vlib.scratch_dir("replay")
+        try:
+            nd = os.path.join(wd, "one.ndjson")
+            vlib.write_ndjson(nd, [v["steps_full"]])
+            r = vlib.run_vh(["crashreplay", "--in", nd, "--max-choices", "100000", "--prop", prop])
         finally:
             shutil.rmtree(wd, ignore_errors=True)
         if r["violations"]:
